@@ -96,3 +96,22 @@ package codegen
 //@   errdrop fmt.Fprintf: the writer is the emitter's strings.Builder
 //@ func (*Emitter).checkIndent
 //@   errdrop WriteRune: strings.Builder writes never fail
+
+// ---- comments stay comments (C01) ----
+// Whatever text reaches Comment/Commentf (schema titles and descriptions are
+// user-controlled and may contain newlines), every emitted line starts with `//`.
+// wordwrap.WrapString is external (assumed to return some string); the guarantee
+// comes from splitting at "\n" and prefixing each piece.
+//@ func (*Emitter).Comment
+//@   props C01
+//@   option noframe
+//@   shape e = emitter
+//@   shape s = sym
+//@   ensures [C01] every-line-is-a-comment: comment_only(emitted(e))
+//@ func (*Emitter).Commentf
+//@   props C01
+//@   option noframe
+//@   shape e = emitter
+//@   shape s = "Unmarshal%s implements %s.Unmarshaler."
+//@   shape args = anyvals(2)
+//@   ensures [C01] every-line-is-a-comment: comment_only(emitted(e))
